@@ -454,10 +454,25 @@ var (
 	scopeType    = reflect.TypeOf((*Scope)(nil)).Elem()
 )
 
-// resolve performs the actual service resolution using the appropriate lifetime strategy.
+// resolve resolves a service. It never returns a nil service without an error:
+// a constructor with several results that left the requested one nil is
+// reported like a single-result constructor that returned nil.
+func (s *scope) resolve(key instanceKey, descriptor *Descriptor) (any, error) {
+	instance, err := s.resolveInstance(key, descriptor)
+	if err == nil && instance == nil {
+		return nil, &ValidationError{
+			ServiceType: key.Type,
+			Cause:       fmt.Errorf("constructor returned nil instance"),
+		}
+	}
+
+	return instance, err
+}
+
+// resolveInstance performs the actual service resolution using the appropriate lifetime strategy.
 // It handles singleton caching, scoped caching, and transient creation, while also
 // detecting circular dependencies during resolution.
-func (s *scope) resolve(key instanceKey, descriptor *Descriptor) (any, error) {
+func (s *scope) resolveInstance(key instanceKey, descriptor *Descriptor) (any, error) {
 	// Find descriptor if not provided
 	if descriptor == nil {
 		if key.Key == nil && key.Group == "" {
